@@ -842,7 +842,26 @@ pub fn gen_c09(rng: &mut Rng, tier: Tier) -> NetProgram {
 
 // ---------------------------------------------------------------- C13
 
+/// A sender and a joined des `AsyncFn` block whose handler asks for a restart of its node and then fails: the failure
+/// is a panic of the handler task, and the run must report it although the node was restarted afterwards.
+fn gen_c13_block(rng: &mut Rng) -> NetProgram {
+    let mut prog = NetProgram { seed: rng.u64(), blocks: vec![7], ..Default::default() };
+    let mut spec = ModSpec { name: "m0".into(), parent: -1, stages: 1, gates: vec![("o".into(), 1)], panic_at: 255, ..Default::default() };
+    let mut t = rng.below(4) * 250_000_000;
+    for _ in 0..1 + rng.small(4) {
+        spec.beats.push(Beat { at_ns: t, acts: vec![Act::Send { gate: 0, delay_ns: 0, body: 0 }] });
+        t += 250_000_000 * (1 + rng.below(6));
+    }
+    spec.chained = rng.chance(1, 2);
+    prog.modules.push(spec);
+    prog.order = vec![0];
+    prog
+}
+
 pub fn gen_c13(rng: &mut Rng, tier: Tier) -> NetProgram {
+    if rng.chance(1, 25) {
+        return gen_c13_block(rng);
+    }
     let nmod = 2 + rng.small(4) as usize;
     let mut prog = base_model(rng, nmod, if tier == Tier::Thorough { 14 } else { 8 }, (1, 3), 3);
     let nvictims = 1 + rng.small(2) as usize;
